@@ -38,6 +38,7 @@ type rcCfg struct {
 	Best    string   `json:"best"`
 	Caches  []string `json:"caches"`
 	Ub      string   `json:"ub"`
+	L2      string   `json:"l2"`
 }
 type rcCase struct {
 	Seq       []string `json:"seq"`
@@ -45,6 +46,7 @@ type rcCase struct {
 	Lingering bool     `json:"lingering"`
 	Retained  bool     `json:"retained"`
 	Gap       int      `json:"gap"`
+	Late      int      `json:"late"`
 }
 
 func freePort() int {
@@ -87,6 +89,10 @@ func rcYAML(c *rcCfg, ports map[string]int, backA, backB string) []byte {
 	pc.Locations = []config.LocationConfig{
 		{Name: "l1", Upstream: c.L1up, Prefixes: []string{"/a"}, ReqHeaders: []string{"X-L:1"}},
 		{Name: "l2", Upstream: "uB", Prefixes: []string{"/b"}, Rewrites: []string{"/b/*:/$1"}, RespHeaders: []string{"X-R:2"}},
+	}
+	if c.L2 == "hosta" {
+		pc.Locations[1].Hosts = []string{"pike.test"}
+		pc.Locations[1].Prefixes = []string{"/a", "/b"}
 	}
 	for _, s := range c.Servers {
 		sc := config.ServerConfig{Addr: fmt.Sprintf("127.0.0.1:%d", ports[s.Addr]), Locations: s.Locs, Cache: s.Cache, Compress: s.Compress}
@@ -368,6 +374,10 @@ func Reconfig(w *world.World, raws []json.RawMessage) ([]interface{}, error) {
 				had[s.Addr] = true
 			}
 			for k := 1; k < len(c.Configs); k++ {
+				if c.Late > 0 && k == len(c.Configs)-1 {
+					// longer than the graceful close of a removed server
+					time.Sleep(time.Duration(c.Late) * time.Second)
+				}
 				before := atomic.LoadInt32(&live.updates)
 				if err := rcWrite(liveFile, rcYAML(&c.Configs[k], livePorts, backA, backB), false); err != nil {
 					o["infra"] = err.Error()
